@@ -73,6 +73,9 @@ pub enum CompilationErrorPayload {
     #[error("{0:?} is not a valid name for a Function")]
     BadFunctionName(String),
 
+    #[error("{0:?} is not a valid name for a Module")]
+    BadModuleName(String),
+
     #[error("Recursion limit ({0}) reached")]
     RecursionLimitReached(u32),
 
